@@ -72,7 +72,8 @@ InconsistentSkip(s, i) == LET T == Assembled(s, i) IN
 SkipCode(s, i, tc) == OwnSkip(s, i, tc)
 
 \* is the configured stream accepted by the expectations?  (by construction of the scenario)
-StreamNonEmpty(tc) == \/ tc.stream = "stdout" /\ tc.out \in {"stdout", "both"}
+\* out = "bigutf8": more than 4 KiB of non-ASCII text on stdout;  beh = "noterm": like "exit", but the shell ignores SIGTERM
+StreamNonEmpty(tc) == \/ tc.stream = "stdout" /\ tc.out \in {"stdout", "both", "bigutf8"}
                       \/ tc.stream = "stderr" /\ tc.out \in {"stderr", "both"}
                       \/ tc.stream = "combined" /\ tc.out # "none"
 Accepts(tc) == tc.expect = "match" \/ (tc.expect = "none" /\ ~StreamNonEmpty(tc))
